@@ -1135,6 +1135,16 @@ example :
        { bytes := 2, last := some 9, dist := [], opt := 4, inner := 1 }] := by
   decide
 
+/-- the channel of the specification is an unbounded FIFO (`c10_worker_fifo`); a bounded queue with a
+discarding `try_send` (seeded change C10-m, here with capacity 2) loses the third entry sent while the
+worker is busy: what the worker merges is not what was sent — conservation fails -/
+example :
+    let evs : List (Event Nat) := [.send 1, .send 2, .send 3, .recv false, .recv false, .recv false]
+    (wrun ({} : WState Nat) evs).map (fun s => entriesOf (msgsOf s.innerOps)) = some [1, 2, 3] ∧
+    ((evs.take 5).foldl (fun (s : Option (WState Nat)) ev => s.bind (wstepLossy 2 · ev)) (some {})).map
+      (fun s => (entriesOf (msgsOf s.innerOps), s.chan.length)) = some ([1, 2], 0) := by
+  decide
+
 end Aggregation
 
 #print axioms Aggregation.c10_conservation
